@@ -3,6 +3,8 @@ have been observed for a 'held' verdict, and how the evidence is written."""
 from vdriver import Job, NCPU
 
 ENGINES = {
+    'h_subject': dict(tulz=['none'], setup_variants=['asan'],
+                      kind='online co-simulation of Subject rounds (model predicts every invocation), scripted callbacks, ASan/UBSan/LSan'),
     'h_array': dict(tulz=['none'], setup_variants=['asan'],
                     kind='lock-step std::vector model + lifetime registry over seeded Array histories, ASan/UBSan/LSan'),
     'h_ring': dict(tulz=['none'], cflags=['-fno-access-control'], setup_variants=['asan'],
@@ -224,3 +226,43 @@ SPECS['C14'] = dict(
     manifest=dict(engine='h_array', text='Lock-step comparison with a std::vector model after every operation plus the object-lifetime registry and ASan/LSan, over seeded histories '
                   'that exercise every construction path including pointer+length for class types and length 0.',
                   note=SAN_NOTE, technique='runtime monitoring: lock-step reference model + lifetime registry under ASan/UBSan/LSan'))
+
+
+# ----------------------------------------------------------------------------- Subject (C05 C10)
+
+def subject_evidence(rule):
+    def f(agg, samples, distinct, tier):
+        return cov(agg.get('histories', 0), distinct, rule, samples,
+                   observed=pick(agg, 'histories', 'ops', 'notifies', 'nestedNotifies', 'calls', 'inRoundActions', 'staleRejected', 'selfUnsub',
+                                 'unsubOther', 'lazyRemovals', 'handleMoves', 'nontrivialCases', 'maxDepth', 'tokensDestroyed'),
+                   operations=agg.get('opCount', {}), signatures=agg.get('signatures', {}), in_round_actions=agg.get('inRoundActionKinds', {}))
+    return f
+
+
+SPECS['C05'] = dict(
+    title='Subject delivers to exactly the live, unmuted observers, in order',
+    jobs=model_jobs('h_subject', 'C05', (24000, 1000000)),
+    require={'any': {'histories': 5000, 'notifies': 50000, 'staleRejected': 5000, 'lazyRemovals': 5000, 'handleMoves': 5000}},
+    evidence=subject_evidence('case = seeded history (1-150 steps, up to 40 observers, a second Subject as source of foreign handles with equal numeric ids) of subscribe '
+                              '(callable, self-view callable, unique_ptr, raw pointer), unsubscribe via handle / via subject, mute, unmute, invalidate, handle move-construct/-assign, '
+                              'stale-handle probes and notify, for signatures <>, <int>, <const std::string&>, <int, std::string>, <Payload by value>, <int&>. Every real invocation '
+                              'must be the next one predicted by the model (who, order, once, argument digest); handle state and token destruction are checked after every step. '
+                              'non-trivial = a notify over >=2 observers with a muted/invalid one, or a rejected stale handle; distinct = distinct histories'),
+    assumptions=['isValid() between invalidation and the next notify is left unjudged', 'isMuted/mute/unmute/handle.unsubscribe() only on subscribed handles (documented precondition)'],
+    manifest=dict(engine='h_subject', text='Online co-simulation: an executable model of the Subject predicts every invocation and the real callbacks check themselves against it, over seeded '
+                  'histories for six argument signatures, with stale/foreign handle probes and per-observer destruction tokens, under ASan/UBSan/LSan.',
+                  note=SAN_NOTE, technique='runtime monitoring: online reference-model co-simulation under ASan/UBSan'))
+
+SPECS['C10'] = dict(
+    title='Subject tolerates callbacks that change it during notify',
+    jobs=model_jobs('h_subject', 'C10', (24000, 1000000)),
+    require={'any': {'histories': 5000, 'inRoundActions': 50000, 'selfUnsub': 5000, 'unsubOther': 3000, 'nestedNotifies': 5000}},
+    evidence=subject_evidence('C05 histories whose callbacks run seeded scripts while being notified: subscribe a new observer, unsubscribe self / an already-called / a not-yet-called observer '
+                              '(via handle or subject), mute, unmute, invalidate any target, call notify again (nesting <= 3). The script acts on the real Subject and on the model together; '
+                              'the model keeps one snapshot per active round and predicts the next invocation; a destruction token per observer must die exactly once and no later than the '
+                              'return of the outermost notify. non-trivial = history with >=1 in-round action; distinct = distinct histories'),
+    assumptions=['an observer removed during a round may be destroyed immediately or at any time up to the return of the outermost notify',
+                 'callbacks do not destroy the Subject itself'],
+    manifest=dict(engine='h_subject', text='The same co-simulation with scripted callbacks that mutate the Subject mid-round (including self-unsubscribe and nested notify); ASan decides memory safety, '
+                  'the model decides skipped / deferred / continued delivery, tokens decide destruction.',
+                  note=SAN_NOTE, technique='runtime monitoring: online co-simulation with scripted re-entrant callbacks under ASan'))
